@@ -587,6 +587,10 @@ def abstract(names, events, n_old_tmps=0):
             m = e.get("md5", EMPTY_MD5) if ev == "link" else EMPTY_MD5
             steps += [("CreateTmp", str(t)), ("WriteTmp", str(t), c_l(names.cid(m))),
                       ("Rename", str(t), c_l(names.oid(o)))]
+            if ev == "link" and e.get("mode") == 0o444:
+                # the link shares the inode of a source that is already write-protected (an object of another
+                # store): the new name is protected from the start = Rename + Chmod in one system call
+                steps.append(("Chmod", c_l(names.oid(o))))
             if m != o.split(".")[0]:
                 JUNK.append(o)
         elif ev == "open":
